@@ -137,9 +137,45 @@ Section Orchestration.
     | p :: _ => Ok {| st := {| phys := p0; tsc := 0; season := if p =? 0 then 0 else -1; dap := 0; mature := false; hflag := false; fin := false |};
                       tabs := {| rows := []; sums := [] |} |}
     end.
+
+  (* ---- the run loop around a day that may raise --------------------------------------------------------------------
+     [defined season gs dap tsc w phys] says whether the processes of the day return (the Python processes may raise:
+     IndexError, UnboundLocalError, AssertionError, ZeroDivisionError).  A day that is not defined stops the run:
+     the result is [Stopped t] (the exception propagates out of run_model, nothing of step t is written). *)
+  Variable defined : Z -> bool -> Z -> Z -> W -> Phys -> bool.
+  Inductive gres (A : Type) := GOk (a : A) | GRaise (e : Err) | Stopped (t : Z).
+  Arguments GOk {A}. Arguments GRaise {A}. Arguments Stopped {A}.
+  Definition day_defined (c : ClockP) (w : W) (s : St) : bool :=
+    let gs := in_season c s in
+    defined (season s) gs (if gs then dap s + 1 else 0) (tsc s) w (phys s).
+  Definition perform_g (c : ClockP) (ws : list W) (m : Model) : gres Model :=
+    match nthW ws (tsc (st m)) with
+    | None => GRaise IndexError
+    | Some w => if day_defined c w (st m)
+                then match perform c ws m with Ok m' => GOk m' | Raise e => GRaise e end
+                else Stopped (tsc (st m))
+    end.
+  Fixpoint run_steps_g (c : ClockP) (ws : list W) (k : nat) (m : Model) : gres Model :=
+    match k with
+    | O => GOk m
+    | S k' => match perform_g c ws m with
+              | GOk m' => if fin (st m') then GOk m' else run_steps_g c ws k' m'
+              | r => r
+              end
+    end.
+  Fixpoint run_till_g (c : ClockP) (ws : list W) (fuel : nat) (m : Model) : option (gres Model) :=
+    if fin (st m) then Some (GOk m)
+    else match fuel with
+         | O => None
+         | S f => match perform_g c ws m with
+                  | GOk m' => run_till_g c ws f m'
+                  | r => Some r
+                  end
+         end.
 End Orchestration.
 
 Arguments Ok {A}. Arguments Raise {A}.
+Arguments GOk {A}. Arguments GRaise {A}. Arguments Stopped {A}.
 Arguments phys {Phys}. Arguments tsc {Phys}. Arguments season {Phys}. Arguments dap {Phys}. Arguments mature {Phys}.
 Arguments hflag {Phys}. Arguments fin {Phys}.
 Arguments s_season {Out}. Arguments s_date {Out}. Arguments s_step {Out}. Arguments s_out {Out}.
